@@ -261,7 +261,8 @@ Section Machine.
   | OStep (cb : bool) (i : I)
   | OSolve (cb : bool) (is : list I) (dflt : I)
   | OFinalize
-  | ORequestExit.
+  | ORequestExit
+  | OSameEvalMonitor.      (* SetEvaluationMonitor handed the monitor already in use: nothing is prepended, nothing rebound, no Finalize *)
 
   Definition fin (sc : sys * C) : sys * C := finalize (fst sc) (snd sc).
 
@@ -286,6 +287,7 @@ Section Machine.
         (fst (fst (fst r)), snd (fst (fst r)), snd (fst r))
     | OFinalize => let sc' := fin sc in (fst sc', snd sc', MNone)
     | ORequestExit => (set_exit s true, c, MNone)
+    | OSameEvalMonitor => (s, c, MNone)
     end.
 
   Definition run (sc : sys * C) (ops : list op) : sys * C :=
@@ -304,4 +306,4 @@ Arguments bind {N A B}. Arguments run_prog {N} inf {R}.
 Arguments OSetObjective {N I}. Arguments OSetPenalty {N I}. Arguments OSetConstraints {N I}. Arguments OSetStrictRanges {N I}.
 Arguments OSetReducer {N I}. Arguments OSetLimits {N I}. Arguments OSetTermination {N I}. Arguments OSetEvalMonitor {N I}.
 Arguments OSetStepMonitor {N I}. Arguments OSetPopulation {N I}. Arguments OStep {N I}. Arguments OSolve {N I}.
-Arguments OFinalize {N I}. Arguments ORequestExit {N I}.
+Arguments OFinalize {N I}. Arguments ORequestExit {N I}. Arguments OSameEvalMonitor {N I}.
